@@ -28,7 +28,7 @@ type c10params struct {
 }
 
 func init() {
-	report.Register("C10", report.Check{Level: "model_checking", QuickBudget: 150 * time.Second, ThoroughBudget: 40 * time.Minute, Run: runC10})
+	report.Register("C10", report.Check{Level: "model_checking", QuickBudget: 240 * time.Second, ThoroughBudget: 25 * time.Minute, Run: runC10})
 	explore.Register("C10.hist", func(p string) explore.Harness {
 		var pr c10params
 		json.Unmarshal([]byte(p), &pr)
